@@ -20,7 +20,7 @@ namespace C22
 
 /-- the empty pinner (fresh datastore) satisfies the invariant -/
 theorem c23_inv_init (present : List Nat) : Inv { present := present } := by
-  refine ⟨⟨⟨?_, ?_, ?_⟩, ?_⟩, rfl, by simp, ?_, RMap.noDupKeys_nil⟩
+  refine ⟨⟨⟨?_, ?_, ?_⟩, ?_⟩, by simp, ?_, RMap.noDupKeys_nil⟩
   · intro c id h; simp [Store.has, Store.idx] at h
   · intro c id h; simp [Store.has, Store.idx] at h
   · intro c id h; simp [Store.has, Store.idx] at h
@@ -34,13 +34,13 @@ theorem c23_inv_step (dag : Dag) (s : St) (op : Op) (h : Inv s) : Inv (step dag 
 /-- the store after a call is exactly the store before it plus the call's write log -/
 theorem c23_log_is_complete (dag : Dag) (s : St) (op : Op) (h : Inv s) :
     (step dag s op).1.store = s.store.applyAll (step dag s op).1.log :=
-  (good_step dag h op).1.tr.1
+  (good_step dag h op).tr.1
 
 /-- write-order discipline: at every crash point no index entry lacks its pin record, and the
 indexes are complete unless the dirty flag is (still) set -/
 theorem c23_crash_image_safe (dag : Dag) (s : St) (op : Op) (n : Nat) (h : Inv s) :
     (s.store.applyAll ((step dag s op).1.log.take n)).Safe :=
-  (good_step dag h op).1.tr.2 n
+  (good_step dag h op).tr.2 n
 
 /-- reopening on any crash image yields a pinner that satisfies the invariant again, so histories
 continue from recovered states -/
